@@ -533,6 +533,10 @@ HAND_TABLES = [   # smallest witnesses of the two refuted statements (Props/C06.
     {"U": 3, "npar": 1, "s": 1, "rows": [[NINF, 2, 0, 3, [0]], [1, 2, 1, 3, [1]], [2, 2, 2, 3, [2]]]},
     {"U": 2, "npar": 1, "s": 1, "rows": [[1, 2, 0, 3, [0]]]},
 ]
+# a final table with more than 1000 ranked functions whose description lengths lie within 2.2 nats of the best one (complexity >= 7
+# in the shipped bases): every row has a non-negligible relative probability, also those far down the table
+LONG_TABLE = {"U": 1100, "npar": 1, "s": 512,
+              "rows": [[(u * 7919) % 1100, 5 * 512, u, 3 * 512, [u]] for u in range(1100)]}
 
 
 def from_impl_table(t, s):
@@ -553,7 +557,7 @@ def search(ctx):
     # an extra batch with its own stream: more -inf, tables that may have < 2 rows
     n = 150 if ctx.quick else 3000
     R = esrv.rng(ctx.seed, "C06/search")
-    tabs = HAND_TABLES + [gen_table(R, allow_crash=True, more_ninf=True) for _ in range(n)]
+    tabs = HAND_TABLES + [LONG_TABLE] + [gen_table(R, allow_crash=True, more_ninf=True) for _ in range(n)]
     outs = []
     try:
         outs = run_impl_parallel(ctx, [(tabs, 1)])[0]
